@@ -134,6 +134,10 @@ func polData() []datamodel.Node {
 	}
 	d = append(d, mk(math.NaN()), mk(math.Inf(1)), mk(math.Inf(-1)), mk(math.Copysign(0, -1)), mk(1e308), mk(5e-324),
 		mk(math.MaxFloat64), mk(-math.MaxFloat64), mk(-1e308), mk(-5e-324))
+	// the floats right next to the bounds the policies use: order on floats is exact, not "close enough"
+	d = append(d, mk(math.Nextafter(5, 6)), mk(math.Nextafter(5, 4)), mk(math.Nextafter(2.5, 3)), mk(math.Nextafter(2.5, 2)),
+		mk(math.Nextafter(1e308, math.Inf(1))), mk(math.Nextafter(1e308, 0)), mk(math.Nextafter(math.MaxFloat64, 0)), mk(math.Nextafter(-1e308, 0)),
+		mk(math.Nextafter(5, 6)+math.Nextafter(5, 6)-5), mk(5.000000000000002), mk(2.4999999999999996))
 	return d
 }
 
